@@ -105,7 +105,7 @@ def run_cli(cli, r, scen, text, lib_convert, workdir, idx):
             pre_sha = sha(b"<!-- stale output -->\n" * 2000)
         argv += r.choice([["-o", outpath], ["--output", outpath], ["--output=" + outpath], ["-o" + outpath]])
     p = subprocess.run([cli] + argv, input=stdin if stdin is not None else b"", stdout=subprocess.PIPE,
-                       stderr=subprocess.PIPE, timeout=60)
+                       stderr=subprocess.PIPE, timeout=900)
     lib = lib_convert(text, st).encode("utf-8")
     file_exists = 1 if (outpath and os.path.exists(outpath)) else 0
     file_sha = ""
@@ -160,7 +160,7 @@ def run_build(cli, r, texts, lib_convert, workdir, idx):
             with open(os.path.join(outdir, nm + ".svg"), "w") as f:
                 f.write("<svg>stale</svg>")
     argv = ["build", "-i", pattern] + (["-o", (os.path.relpath(outdir, d) if cwd else outdir)] if use_out else [])
-    p = subprocess.run([cli] + argv, stdout=subprocess.PIPE, stderr=subprocess.PIPE, timeout=120, cwd=cwd)
+    p = subprocess.run([cli] + argv, stdout=subprocess.PIPE, stderr=subprocess.PIPE, timeout=900, cwd=cwd)
     written = []
     if os.path.isdir(outdir):
         written = [f for f in os.listdir(outdir) if f.endswith(".svg")]
@@ -204,7 +204,7 @@ def run_build_scenario(cli, r, sc, texts, lib_convert, workdir, idx):
                         f.write("<svg>stale</svg>")
     relative = r.random() < 0.5
     argv = ["build", "-i", os.path.join("src" if relative else src, "*.bob"), "-o", "out" if relative else outdir]
-    p = subprocess.run([cli] + argv, stdout=subprocess.PIPE, stderr=subprocess.PIPE, timeout=120, cwd=d)
+    p = subprocess.run([cli] + argv, stdout=subprocess.PIPE, stderr=subprocess.PIPE, timeout=900, cwd=d)
     written = sorted(f for f in os.listdir(outdir) if os.path.isfile(os.path.join(outdir, f))) if os.path.isdir(outdir) else []
     correct = 0
     for f in written:
@@ -268,7 +268,7 @@ class Server:
             self.proc = None
 
 
-def http_request(port, method, path, body=None, timeout=30):
+def http_request(port, method, path, body=None, timeout=120):
     """returns (status or 0 when the connection was closed without a response, body bytes)"""
     try:
         c = http.client.HTTPConnection("127.0.0.1", port, timeout=timeout)
@@ -281,7 +281,7 @@ def http_request(port, method, path, body=None, timeout=30):
         return 0, b""
 
 
-def split_post(port, raw, cut, timeout=60):
+def split_post(port, raw, cut, timeout=120):
     """POST / with a Content-Length body written in two pieces (cut inside a multi-byte character), a pause in between"""
     try:
         s = socket.create_connection(("127.0.0.1", port), timeout=timeout)
